@@ -433,6 +433,28 @@ func genNum(r *vh.Rng, idx int) *numLit {
 	return n
 }
 
+// the hooks call the parsers outside Decode's recover: keep a runtime panic (e.g. an
+// index out of range in the power-of-ten tables) from killing the harness
+func safeParse64(b []byte) (bits uint64, err error, panicked bool) {
+	defer func() {
+		if recover() != nil {
+			panicked, err = true, fmt.Errorf("panic")
+		}
+	}()
+	bits, err = codec.VerifParseFloat64(b)
+	return
+}
+
+func safeParse32(b []byte) (bits uint32, err error, panicked bool) {
+	defer func() {
+		if recover() != nil {
+			panicked, err = true, fmt.Errorf("panic")
+		}
+	}()
+	bits, err = codec.VerifParseFloat32(b)
+	return
+}
+
 func numErrClass(err error) string {
 	if err == nil {
 		return "nil"
@@ -526,8 +548,11 @@ func numStream(r *vh.Rng, n int, cv *vh.Cases, sum *vh.Summary, idBase int) {
 		rf32 := codec.VerifReadFloat(b, 0)
 		rf64 := codec.VerifReadFloat(b, 1)
 		rf64u := codec.VerifReadFloat(b, 2)
-		p64, pe64 := codec.VerifParseFloat64(b)
-		p32, pe32 := codec.VerifParseFloat32(b)
+		p64, pe64, pp64 := safeParse64(b)
+		p32, pe32, pp32 := safeParse32(b)
+		if pp64 || pp32 {
+			sum.FailC("num", cls+":panic", "parseFloat64/parseFloat32 panicked (runtime error) on a valid literal", cj)
+		}
 		cv.Add(fmt.Sprintf("CNum %d %s %s %s %s %s %s %s %s %s %s %s %s", id, lit.coq(), vh.CoqBool(lit.upper), vh.CoqBytes(b),
 			coqRf(rf32), coqRf(rf64), coqRf(rf64u),
 			coqZu(math.Float64bits(want64)), coqZu(uint64(math.Float32bits(want32))),
